@@ -29,7 +29,17 @@ pub struct Doc {
 }
 
 pub fn esc_attr(v: &str) -> String {
-    v.replace('&', "&amp;").replace('<', "&lt;").replace('"', "&quot;")
+    v.replace('&', "&amp;").replace('<', "&lt;").replace('"', "&quot;").replace(ENT_OPEN, "&").replace(ENT_CLOSE, ";")
+}
+
+/// does the element (or a descendant) refer to an entity the reader does not know?
+pub fn has_entity_markers(n: &Node) -> bool {
+    n.attrs.iter().any(|(_, v)| v.contains(ENT_OPEN))
+        || n.items.iter().any(|it| match it {
+            Item::Text(t) => t.contains(ENT_OPEN),
+            Item::Elem(c) => has_entity_markers(c),
+            _ => false,
+        })
 }
 /// `\u{E000}name\u{E001}` inside a text stands for the entity reference `&name;` (written unescaped): references to
 /// entities the reader does not know are well-formed XML and still character data
